@@ -28,6 +28,10 @@ pub static C09: C09Check = C09Check;
 pub enum Kind {
     /// forward-model event (tracks from a vertex)
     Fwd { tracks: usize, noise: f64, amp_scale: f64 },
+    /// forward-model event in which one pad chunk arrives twice: the second copy has the same
+    /// header and the same (valid) CRC-32C words but ANOTHER payload - a block of samples zeroed,
+    /// four bytes forged so that the checksum still holds. A duplicate, to be rejected in every order.
+    FwdDup { tracks: usize },
     /// extreme but CRC-valid samples / sizes / counts
     Extreme { wires: usize, wire_mode: u8, wire_len: usize, pad_msgs: usize, pad_mode: u8, pad_req: u16, pad_channels: usize, seam: bool },
     /// one response-shaped pulse at time bin `bin`, pad row `row`
@@ -111,6 +115,30 @@ pub fn kind_banks(kind: &Kind, seed: u64) -> (u32, BankList) {
             ev.wire_amp *= amp_scale;
             ev.pad_amp *= amp_scale;
             (fwd::SIM_RUN, fwd::banks(&ev))
+        }
+        Kind::FwdDup { tracks } => {
+            let ev = fwd::random_event(&mut r, *tracks, 0.0);
+            let mut banks = fwd::banks(&ev);
+            // the pad chunk bank with the longest payload
+            let pick = banks.iter().enumerate().filter(|(_, b)| b.0.starts_with("PC") && b.1.len() >= 28 + 64).max_by_key(|(_, b)| b.1.len()).map(|(i, _)| i);
+            if let Some(i) = pick {
+                let (name, bytes) = banks[i].clone();
+                let n = bytes.len();
+                // layout: 16 header bytes, header CRC, payload + zero padding, payload CRC
+                let mut body = bytes[20..n - 4].to_vec();
+                let target = daqmodel::crc::crc32c(&body);
+                let declared = u16::from_le_bytes([bytes[14], bytes[15]]) as usize;
+                let len = declared.min(body.len());
+                for b in body[len / 4..len / 2].iter_mut() {
+                    *b = 0;
+                }
+                if len >= 64 && daqmodel::crc::forge4(&mut body, len / 2, target) && body != bytes[20..n - 4] {
+                    let mut copy = bytes.clone();
+                    copy[20..n - 4].copy_from_slice(&body);
+                    banks.push((name, copy));
+                }
+            }
+            (fwd::SIM_RUN, banks)
         }
         Kind::Extreme { wires, wire_mode, wire_len, pad_msgs, pad_mode, pad_req, pad_channels, seam } => {
             let run = fwd::SIM_RUN;
@@ -748,6 +776,7 @@ pub fn evfault_kind(kind: &Kind, seed: u64) -> Option<&'static str> {
 pub fn kind_name(k: &Kind) -> &'static str {
     match k {
         Kind::Fwd { .. } => "fwd",
+        Kind::FwdDup { .. } => "fwddup",
         Kind::Extreme { .. } => "extreme",
         Kind::Pulse { .. } => "pulse",
         Kind::Hits { .. } => "hits",
